@@ -116,7 +116,13 @@ pub fn gen_psbt_plain(rng: &mut Rng) -> Psbt {
     let mut p = Psbt::from_unsigned_tx(tx).expect("unsigned");
     for i in p.inputs.iter_mut() {
         if rng.chance(1, 2) {
-            i.witness_utxo = Some(gen_txout(rng));
+            // (a legacy p2pkh witness_utxo without previous tx is refused by the streamed decoder by
+            // design; those are generated in the Streamed group, where the model refuses them too)
+            let mut o = gen_txout(rng);
+            while o.script_pubkey.is_p2pkh() {
+                o = gen_txout(rng);
+            }
+            i.witness_utxo = Some(o);
         }
         if rng.chance(1, 4) {
             i.redeem_script = Some(ScriptBuf::from(rng.bytes(5)));
@@ -225,4 +231,33 @@ pub fn gen_psbt_sized(rng: &mut Rng, target: usize, plain: bool) -> Psbt {
     let p = with(pad);
     assert_eq!(p.serialize().len(), target);
     p
+}
+
+/// a `TxoProof` of exactly `target` serialised bytes: the attestations of a helper-built proof with a
+/// `ProofType::Block` payload (a block holding one padded transaction)
+pub fn gen_proof_sized(rng: &mut Rng, target: usize) -> Vec<u8> {
+    use lightning_signer::txoo::proof::{ProofType, TxoProof};
+    let base: TxoProof = bitcoin::consensus::deserialize(&proofs()[0]).expect("proof");
+    let genesis = bitcoin::blockdata::constants::genesis_block(bitcoin::Network::Regtest);
+    let mut tx = gen_tx(rng, true, 1);
+    tx.output.truncate(1);
+    tx.output.push(TxOut { value: Amount::from_sat(1), script_pubkey: ScriptBuf::new() });
+    let k = tx.output.len() - 1;
+    let with = |pad: usize| {
+        let mut t = tx.clone();
+        t.output[k].script_pubkey = ScriptBuf::from(vec![0x6a; pad]);
+        let block = bitcoin::Block { header: genesis.header, txdata: vec![t] };
+        TxoProof { attestations: base.attestations.clone(), proof: ProofType::Block(block) }
+    };
+    let pad = fit(target, &|p| serialize(&with(p)).len());
+    let out = serialize(&with(pad));
+    assert_eq!(out.len(), target);
+    out
+}
+
+/// the third proof shape: block delivered separately
+pub fn proof_external() -> Vec<u8> {
+    use lightning_signer::txoo::proof::{ProofType, TxoProof};
+    let base: TxoProof = bitcoin::consensus::deserialize(&proofs()[0]).expect("proof");
+    serialize(&TxoProof { attestations: base.attestations, proof: ProofType::ExternalBlock() })
 }
